@@ -11,7 +11,7 @@ from __future__ import annotations
 import ast
 
 from .. import flow
-from ..astutil import body_walk, call_name, call_recv, calls_in, kwarg, names_in, norm, strip_await, walk_no_nested
+from ..astutil import polarity_atoms, body_walk, call_name, call_recv, calls_in, kwarg, names_in, norm, strip_await, walk_no_nested
 from ..loader import AnalysisError
 from .common import in_lock, parmap, where
 
@@ -127,8 +127,9 @@ def r4_2(ctx, fmap, nons):
     guards = []
     for s in body_walk(fi.node):
         if isinstance(s, ast.If) and any(isinstance(x, ast.Raise) for x in s.body):
-            for cmp_ in ast.walk(s.test):
-                if isinstance(cmp_, ast.Compare) and len(cmp_.ops) == 1 and isinstance(cmp_.ops[0], ast.In):
+            for cmp_, positive in polarity_atoms(s.test):
+                # the raising arm must be the one where the flag *is* in the list
+                if isinstance(cmp_, ast.Compare) and len(cmp_.ops) == 1 and ((isinstance(cmp_.ops[0], ast.In) and positive) or (isinstance(cmp_.ops[0], ast.NotIn) and not positive)):
                     l, r = cmp_.left, cmp_.comparators[0]
                     consts = []
                     if isinstance(l, ast.Constant) and isinstance(l.value, str):
@@ -507,6 +508,60 @@ def r4_7(ctx):
         ctx.ok("R4.7", where(fi), how)
 
 
+def r4_8(ctx):
+    """Shape of Mailbox.store(): each StoreAction arm reaches the helper that implements it, for the key of the loop; for
+    every key one FETCH line is generated, queued for the other sessions and returned to the issuer (UID form for UID STORE)."""
+    from .common import pm_of
+
+    p = ctx.p
+    fi = p.func("mbox.Mailbox.store")
+    ctx.analysed(fi)
+    # (a) action -> helper
+    want = {"ADD_FLAGS": "_help_add_flag", "REMOVE_FLAGS": "_help_remove_flag", "REPLACE_FLAGS": "_help_replace_flags"}
+    got: dict[str, set[str]] = {}
+    for m in [n for n in body_walk(fi.node) if isinstance(n, ast.Match) and norm(n.subject) == "action"]:
+        for c in m.cases:
+            pats = c.pattern.patterns if isinstance(c.pattern, ast.MatchOr) else [c.pattern]
+            names = [pt.value.attr for pt in pats if isinstance(pt, ast.MatchValue) and isinstance(pt.value, ast.Attribute)]
+            if len(names) != 1:
+                continue  # the outer ADD|REMOVE arm only wraps the inner dispatch
+            helpers = {call_name(x) for st in c.body for x in calls_in(st) if call_name(x) in want.values()}
+            got.setdefault(names[0], set()).update(helpers)
+    for iff in [n for n in body_walk(fi.node) if isinstance(n, ast.If)]:
+        for a, pos in polarity_atoms(iff.test):
+            if isinstance(a, ast.Compare) and norm(a.left) == "action" and isinstance(a.ops[0], ast.Eq) and pos and isinstance(a.comparators[0], ast.Attribute):
+                helpers = {call_name(x) for st in iff.body for x in calls_in(st) if call_name(x) in want.values()}
+                got.setdefault(a.comparators[0].attr, set()).update(helpers)
+    for act, helper in want.items():
+        if got.get(act) == {helper}:
+            ctx.ok("R4.8", where(fi), f"StoreAction.{act} -> {helper}()")
+        else:
+            ctx.bad("R4.8", fi.module, fi.qual, f"StoreAction.{act} -> {sorted(got.get(act, []))}", f"STORE with action {act} does not reach (only) {helper}(): the flags are not changed, or changed the wrong way", fi.node.lineno)
+    # helpers are applied to the loop key
+    for c in calls_in(fi.node):
+        if call_name(c) in want.values() and c.args:
+            loops = [l for l in body_walk(fi.node) if isinstance(l, ast.For) and any(x is c for x in ast.walk(l))]
+            keys = {norm(l.target) for l in loops}
+            if norm(c.args[0]) in keys:
+                ctx.ok("R4.8", where(fi), f"{norm(c, 50)} applied to the message key of the loop", nontrivial=False)
+            else:
+                ctx.bad("R4.8", fi.module, fi.qual, norm(c, 80), "a flag helper is applied to something other than the message key the loop is at", c.lineno)
+    # (b) reporting
+    pm = pm_of(p, fi)
+    checks = [
+        (pm.has("fetch, fetch_uid = self._generate_fetch_msg_for(key, publish_uid=uid_cmd)"), "one FETCH line per key, in plain and UID form (publish_uid follows uid_cmd)"),
+        (pm.has("notifications.append(fetch)"), "the plain form is queued for the other sessions"),
+        (pm.has("if uid_cmd:\n    response.append(fetch_uid)\nelse:\n    response.append(fetch)"), "the issuer gets the UID form for UID STORE, the plain form otherwise"),
+        (pm.has("await self._dispatch_or_pend_notifications(notifications, dont_notify=dont_notify)"), "the queued lines are dispatched to every session but the issuer"),
+        (pm.has("return response"), "the issuer's lines are returned"),
+    ]
+    for okv, what in checks:
+        if okv:
+            ctx.ok("R4.8", where(fi), what)
+        else:
+            ctx.bad("R4.8", fi.module, fi.qual, what, f"store() lost: {what} - a flag change is not reported to the issuing session / the other sessions as STORE requires", fi.node.lineno)
+
+
 def run(ctx):
     ctx.do(r4_7)
     ctx.do(r4_6)
@@ -518,5 +573,7 @@ def run(ctx):
     ctx.do(r4_3)
     ctx.do(r4_4)
     ctx.do(r4_5)
-    from . import c16
+    ctx.do(r4_8)
+    from . import c10, c16
     ctx.do(c16.r16_2)
+    ctx.do(c10.r10_4_units, modules=("mbox", "client"))
